@@ -1640,7 +1640,15 @@ class FlowIR(object):
                     'no': False,
                 }[s.lower()]
 
-            for key, convert in [ ('replicate', int), ('aggregate', to_bool)]:
+            def to_replicate(value):
+                # VV: int(2.5) is 2 - a float is not a number of replicas (the schema of workflowAttributes.replicate
+                #     asks for an integer, or a reference to a variable). Without this check the replicas are created
+                #     using the truncated number and the value that the user provided is never validated.
+                if isinstance(value, float):
+                    raise ValueError("%s is a float" % value)
+                return int(value)
+
+            for key, convert in [ ('replicate', to_replicate), ('aggregate', to_bool)]:
                 label = '%s.workflowAttributes.%s' % (ref, key)
 
                 try:
